@@ -441,6 +441,7 @@ def run(P, R, tier):
                 meas.append(m2[1])
     common.decorated_methods(P, R, 'C14.c', meas)
     common.forward(P, R, 'C13', ['C13.i'], 'C14.b', 'per-element reductions over offset segments (reduceat) repair the rows of elements without vertices', floor=0)
+    common.forward(P, R, 'C16', ['C16.d'], 'C14.b', 'the missing mask of a derived array is read from its own validity bitmap (no cached mask of the source is carried over)', floor=5)
     common.forward(P, R, 'C16', ['C16.a'], 'C14.b', 'the missing mask the map kernels receive is the validity bitmap read for exactly the window of the array', floor=2)
     common.forward(P, R, 'C16', ['C16.g'], 'C14.c', 'the scalar an array hands out (indexing or iterating) measures like the array row: it is built from the element\'s own values and dtype', floor=1)
     # no measure without the kernel: every return of a length/area that has a kernel passes through it
